@@ -18,20 +18,26 @@ CHECKS = {
 }
 _T = ("trace validation by TLC (AlgoMon.tla) of executions of the real computations under seeded FIFO schedules, "
       "on TLC-generated instances (Gen_Dcop.tla)")
+_TM = ("TLC model checking of Mgm.tla (implementation-shaped model of MgmComputation: every start order, per-channel-FIFO delivery order "
+       "and random draw on TLC-drawn instances) with replay of every explored transition on the real computations (full local-state "
+       "comparison); ") + _T + "; Judge_Hist.tla on the real computations' own reachable graph when they leave the model"
 _N = ("Trusted: TLC's evaluation of AlgoMon.tla/Dcop.tla, vlib/simrt.py (message plumbing only; its FIFO discipline is re-validated "
       "by AlgoMon's network clauses). Schedules are sampled (seeded, four policies), not exhausted, at this level.")
-CHECKS["C03"] = ("model_checking", _T,
+CHECKS["C03"] = ("model_checking", _TM,
     "Whole executions of the real MGM and MGM2 computations (min/max, with and without own-value costs, binary/ternary/parallel/unary "
     "constraints) are recorded and judged by TLC against AlgoMon.tla: at every instant where all computations completed the same "
     "number of cycles the global cost (Dcop.tla) must not be worse than at the previous such instant, and two constraint-sharing "
-    "variables may both have changed only if an accepted MGM2 offer between them was delivered in that cycle.", _N, "DESIGN.md section 4 C03")
-CHECKS["C04"] = ("model_checking", _T,
-    "Same executions as C03; whenever two consecutive equal-cycle snapshots are identical TLC evaluates OneOpt (Dcop.tla) on the assignment.",
+    "variables may both have changed only if an accepted MGM2 offer between them was delivered in that cycle. For MGM, Mgm.tla is "
+    "checked exhaustively (invariants CostMonotone, MoveAlone over the cycle-boundary history of CycleHist.tla) and bound to the code by replay.", _N, "DESIGN.md section 4 C03")
+CHECKS["C04"] = ("model_checking", _TM,
+    "Same executions as C03; whenever two consecutive equal-cycle snapshots are identical TLC evaluates OneOpt (Dcop.tla) on the assignment. For MGM, Mgm.tla is checked exhaustively "
+    "(invariant StagnationIsOneOpt) and bound to the code by replay.",
     _N, "DESIGN.md section 4 C04")
-CHECKS["C07"] = ("model_checking", _T,
+CHECKS["C07"] = ("model_checking", _TM,
     "Executions of the real MGM, MGM2 and DSA (variants A, B, C) computations with stop_cycle k in {1,2,3,5} on shapes including isolated "
     "variables and n-ary constraints; TLC checks: no handler raised, quiescence implies every computation reported finished, and each "
-    "finished report happens at cycle k (or at start for a computation without neighbour).", _N, "DESIGN.md section 4 C07")
+    "finished report happens at cycle k (or at start for a computation without neighbour). For MGM, Mgm.tla is checked exhaustively "
+    "(FinishedAtStop, QuietMeansFinished, no deadlock before the end) and bound to the code by replay.", _N, "DESIGN.md section 4 C07")
 CHECKS["C01"] = ("model_checking", _T,
     "Executions of the real DPOP computations on the real pseudo-tree, for TLC-generated DCOPs (chains, stars, cycles, n-ary/unary/parallel constraints, "
     "isolated variables, several components; own-value costs; min and max), by reference and through the JSON wire format; TLC checks that quiescence implies "
